@@ -290,6 +290,15 @@ Definition update_counter
     Ok (s, match slot with None => true | Some _ => false end, changed)
   else Ok (s, true, false).
 
+(** a machine signals: the lone signaller is excluded, two distinct
+    signallers reach everybody *)
+Definition sig_join (old : option sigtarget) (mi : nat) : sigtarget :=
+  match old with
+  | None => SigAllExcept mi
+  | Some (SigAllExcept x) => if Nat.eqb x mi then SigAllExcept mi else SigAll
+  | Some SigAll => SigAll
+  end.
+
 (** ** transition *)
 Fixpoint transition (fuel : nat) (c : cfg) (tp : tape) (s : fstate) (mi : nat) (ev : event)
   : outcome (fstate * bool) :=
@@ -311,13 +320,7 @@ Fixpoint transition (fuel : nat) (c : cfg) (tp : tape) (s : fstate) (mi : nat) (
             if ns =? STATE_END then
               Ok (set_rt s mi (rt_set_cur r STATE_END (lim r)), true)
             else if ns =? STATE_SIGNAL then
-              let s := add_log s (LOG_SIGSET, N.of_nat mi, 0) in
-              let g := match sigp s with
-                       | None => SigAllExcept mi
-                       | Some (SigAllExcept x) => if Nat.eqb x mi then SigAllExcept mi else SigAll
-                       | Some SigAll => SigAll
-                       end in
-              Ok (set_sigp s (Some g), false)
+              Ok (set_sigp (add_log s (LOG_SIGSET, N.of_nat mi, 0)) (Some (sig_join (sigp s) mi)), false)
             else
               let curr := cur r in
               s <- (if negb (curr =? ns) then
